@@ -380,8 +380,11 @@ def write_evidence(run, violations, extra_cov=None, level="model_checking"):
         "wall_s": round(time.time() - run.t0, 1),
         "violations": violations,
     }
-    os.makedirs(os.path.join(VERIF, "evidence"), exist_ok=True)
-    p = os.path.join(VERIF, "evidence", run.prop + ".json")
+    # /verif/evidence describes checks of /repo; a run pointed at another tree (VERIF_REPO: seeded changes, the
+    # unrepaired tree) writes its evidence next to its replays instead
+    evdir = os.path.join(VERIF, "evidence") if not os.environ.get("VERIF_REPO") else os.path.join(VERIF, "replays", "evidence-other-tree")
+    os.makedirs(evdir, exist_ok=True)
+    p = os.path.join(evdir, run.prop + ".json")
     tmp = p + ".tmp%d" % os.getpid()
     with open(tmp, "w") as f:
         json.dump(ev, f, indent=1)
